@@ -940,3 +940,70 @@ impl<'c, 'd> Gen<'c, 'd> {
         }
     }
 }
+
+/// Re-establish printability of logical expressions in argument position
+/// (after structural mutations): wrap in parentheses whatever would not be
+/// read back as the same logical expression.
+pub fn normalize_args(e: &mut MExpr) {
+    fn starts_logical(e: &MExpr) -> bool {
+        match e {
+            MExpr::Not(_) | MExpr::Paren(_) | MExpr::Quant { .. } => true,
+            MExpr::Comb { items, .. } => starts_logical(&items[0]),
+            MExpr::Cmp { .. } => false,
+        }
+    }
+    fn printable(e: &MExpr) -> bool {
+        match e {
+            MExpr::Cmp { op: MOp::IsTrue, .. } => false,
+            MExpr::Cmp { .. } | MExpr::Not(_) | MExpr::Paren(_) | MExpr::Quant { .. } => true,
+            MExpr::Comb { .. } => starts_logical(e),
+        }
+    }
+    fn fix(e: &mut MExpr) {
+        expr(e);
+        if !printable(e) {
+            let inner = std::mem::replace(e, MExpr::Cmp { lhs: MIndex::field("x"), op: MOp::IsTrue });
+            *e = MExpr::Paren(Box::new(inner));
+        }
+    }
+    fn index(ix: &mut MIndex) {
+        if let MBase::Call { args, .. } = &mut ix.base {
+            for a in args {
+                match a {
+                    MArg::Index(i) => index(i),
+                    MArg::Lit(_) => {}
+                    MArg::Logical(e) => fix(e),
+                }
+            }
+        }
+    }
+    fn expr(e: &mut MExpr) {
+        match e {
+            MExpr::Cmp { lhs, .. } => index(lhs),
+            MExpr::Not(a) => {
+                expr(a);
+                if matches!(**a, MExpr::Comb { .. }) {
+                    let inner = std::mem::replace(&mut **a, MExpr::Cmp { lhs: MIndex::field("x"), op: MOp::IsTrue });
+                    **a = MExpr::Paren(Box::new(inner));
+                }
+            }
+            MExpr::Paren(a) => expr(a),
+            MExpr::Comb { op, items } => {
+                for it in items.iter_mut() {
+                    expr(it);
+                    if let MExpr::Comb { op: o, .. } = it {
+                        if o.prec() <= op.prec() {
+                            let inner = std::mem::replace(it, MExpr::Cmp { lhs: MIndex::field("x"), op: MOp::IsTrue });
+                            *it = MExpr::Paren(Box::new(inner));
+                        }
+                    }
+                }
+            }
+            MExpr::Quant { arg, .. } => match &mut **arg {
+                MQArg::Index(ix) => index(ix),
+                MQArg::Logical(e) => fix(e),
+            },
+        }
+    }
+    expr(e)
+}
